@@ -114,7 +114,8 @@ def pipeline_level(beh, n, rng):
     docl = (["w%dbegin" % n] if shield else []) + body + ["w%dend" % n]
     block_ind = conc_chars(beh["ind"], rng)
     if kind == "module":
-        lines = ["#[[[ @module"] + [("#" if t == "" else "# " + t) for t in docl] + ["#]]"]
+        # (the module doccomment may be indented like any other block)
+        lines = [block_ind + "#[[[ @module"] + [block_ind + ("#" if t == "" else "# " + t) for t in docl] + [block_ind + "#]]"]
         src = "\n".join(lines) + "\nfunction(f)\nendfunction()\n"
         dname, aprefix = "module", ""
     else:
